@@ -9,6 +9,10 @@ Local Open Scope R_scope.
 Definition Rltb (a b : R) : bool := if Rlt_dec a b then true else false.
 Definition Rleb' (a b : R) : bool := if Rle_dec a b then true else false.
 Definition Reqb' (a b : R) : bool := if Req_EM_T a b then true else false.
+(* an SSA equation of a generated _wpe form (and of the slicing tactics): v = e, wrapped so that tactics can tell
+   selected from unselected equations *)
+Definition Eqn (a b : R) : Prop := a = b.
+
 Definition b2r (b : bool) : R := if b then 1 else 0.
 
 (* CasADi truth value: non-zero is true *)
